@@ -29,7 +29,7 @@ type Case struct {
 }
 
 type waiter struct {
-	fired int32 // index of the case completed by a counterpart, -1 while waiting; plain accesses in //go:norace code only
+	fired int32  // index of the case completed by a counterpart, -1 while waiting; plain accesses in //go:norace code only
 	hb    *int32 // separately allocated, only ever touched with real atomics on both sides of a rendezvous: gives the race detector the channel's happens-before edges
 }
 
